@@ -503,24 +503,24 @@ def metaNoti (enc : String → String) (target name : String) (v : Scalar) (now 
               raw := rawMetaUpdate name (rawScalar enc v) enc }],
     del := [] }
 
+/-- does the leaf at `meta/<name>` already show the current value?  (`metaLeafValue`: nil when
+there is no leaf or it holds no update; a stored value of the wrong type is "different") -/
+def metaIsCurrent (t : Target) (name : String) (isCur : Val → Bool) : Bool :=
+  match (lookup t.tree [metaRoot, name]).bind (fun n => n.upd.head?.map (·.val)) with
+  | some sv => isCur sv
+  | none => false
+
 /-- one step of `generateMetaUpdates` for metadata value `name` whose current value is `v`;
-`isCur` tells whether the stored leaf already shows `v` -/
+`isCur` tells whether a stored value shows `v` -/
 def genMetaOne (cfg : Cfg) (enc : String → String) (now : Int) (emit : Bool)
     (acc : Target × List Event) (name : String) (v : Scalar) (isCur : Val → Bool) : Target × List Event :=
-  let t := acc.1
   if cfg.excluded.contains name then acc
+  else if metaIsCurrent acc.1 name isCur then acc
   else
-    -- `metaLeafValue`: nil when there is no leaf or it holds no update
-    let stored : Option Val := (lookup t.tree [metaRoot, name]).bind (fun n => n.upd.head?.map (·.val))
-    let cur := match stored with
-      | some sv => isCur sv
-      | none => false
-    if cur then acc
-    else
-      let r := Target.gnmiUpdate1 cfg now t (metaNoti enc t.name name v now)
-      match r.2.2 with
-      | some nd => (r.2.1, if emit then acc.2 ++ [Event.upd nd] else acc.2)
-      | none => (r.2.1, acc.2)
+    let r := Target.gnmiUpdate1 cfg now acc.1 (metaNoti enc acc.1.name name v now)
+    match r.2.2 with
+    | some nd => (r.2.1, if emit then acc.2 ++ [Event.upd nd] else acc.2)
+    | none => (r.2.1, acc.2)
 
 /-- `generateMetaUpdates` -/
 def Target.generateMetaUpdates (cfg : Cfg) (enc : String → String) (now : Int) (emit : Bool)
